@@ -298,6 +298,8 @@ class Model:
             raise AnalysisError(f'unknown scipp constant {name} at {interp.where(node)}')
         v = self.new(interp, Rat.sym(name, positive=True), self.CONSTS[name], 'float64')
         v.kind = 'constant'
+        v.members['dims'] = []  # scipp.constants are 0-d float64 variables without variances
+        v.members['no_variances'] = True
         from .magnitude import CONSTANTS
         if name in CONSTANTS:
             v.mag = MD.const_mag(CONSTANTS[name])  # scipp.constants are expressed in SI units
@@ -305,6 +307,22 @@ class Model:
 
     # ------------------------------------------------------------------
     def binop(self, interp, op: str, a, b, node, inplace: bool = False):
+        r = self._binop(interp, op, a, b, node, inplace)
+        # what is known about the shape of the operands carries over: two 0-d operands give a 0-d result, operands without
+        # variances give a result without
+        if isinstance(r, SVar) and r is not a and (isinstance(a, SVar) or isinstance(b, SVar)):
+            def scalar(x):
+                return isinstance(x, bool | int | float | F) or (isinstance(x, SVar) and x.members.get('dims') == [] and items_of_none(x))
+
+            def plain(x):
+                return isinstance(x, bool | int | float | F) or (isinstance(x, SVar) and x.members.get('no_variances') is True)
+            if scalar(a) and scalar(b) and 'dims' not in r.members:
+                r.members['dims'] = []
+            if plain(a) and plain(b):
+                r.members['no_variances'] = True
+        return r
+
+    def _binop(self, interp, op: str, a, b, node, inplace: bool = False):
         # unit algebra
         if isinstance(a, Unit) and isinstance(b, Unit):
             if op == 'mul':
@@ -525,6 +543,8 @@ class Model:
                 interp.event('binned-unsafe-access', node, attr=attr, stmt=_text(node))
             return self.raw(interp, v, node, attr)
         if attr in ('variance', 'variances'):
+            if v.members.get('no_variances') is True:
+                return None
             r = self.new(interp, None, v.unit ** 2 if v.unit else None, v.dtype, v.taint, 'variances')
             r.view_of = v
             return r
@@ -760,6 +780,14 @@ class Model:
             return self._reduce(interp, name, v, node)
         if name == '__format__':
             return Opaque('format')
+        if name == 'hex' and v.kind == 'raw' and not args and isinstance(v.term, Rat) and not v.members.get('is_array', False):
+            num = None
+            if hasattr(self, 'value') and hasattr(self, 'val'):
+                try:
+                    num = self.value(v)
+                except Exception:  # noqa: BLE001
+                    num = None
+            return ExactImage('hex of the number', str(num) if num is not None else T.show(v.term), v.dtype)
         if name in ('tolist', 'item') and v.kind == 'raw' and not args:
             if isinstance(v.term, Vec) and name == 'tolist':
                 # the three numbers of one vector, as Python floats
@@ -792,12 +820,19 @@ class Model:
         mod, _, name = path.rpartition('.')
         if mod == 'builtins':
             return self._builtin(interp, name, args, kwargs, node)
+        if path in ('math.isfinite', 'numpy.isfinite') and len(args) == 1 and isinstance(args[0], ExactImage):
+            return True  # multiplier and powers of a unit are finite numbers
+        if path in ('math.isnan', 'numpy.isnan', 'math.isinf', 'numpy.isinf') and len(args) == 1 and isinstance(args[0], ExactImage):
+            return False
         if path == 'numpy.dtype' and len(args) == 1 and isinstance(args[0], str) and not kwargs:
             import numpy as _np
             try:
                 return _np.dtype(args[0])  # a concrete dtype object (itemsize, kind, ... are numpy's own)
             except TypeError as ex:
                 raise RaiseSignal('TypeError', node, interp.where(node), (str(ex),)) from None
+        if path == 'contextlib.ExitStack' and not args:
+            from .interp import ExitStackModel
+            return ExitStackModel(interp)
         if path == 'contextlib.suppress':
             from .interp import Suppress
             names = []
@@ -900,6 +935,32 @@ class Model:
             return _PyCallable(_get)
         if path == 'operator.itemgetter' and len(args) == 1:
             return _PyCallable(lambda obj, _n=node, _k=args[0]: interp.subscript(obj, _k, _n))
+        if mod == 'operator' and name in ('lt', 'le', 'gt', 'ge', 'eq', 'ne', 'is_', 'is_not', 'contains', 'not_', 'truth', 'neg', 'abs', 'getitem') and not kwargs:
+            import ast as _ast
+            cmp = {'lt': _ast.Lt, 'le': _ast.LtE, 'gt': _ast.Gt, 'ge': _ast.GtE, 'eq': _ast.Eq, 'ne': _ast.NotEq, 'is_': _ast.Is, 'is_not': _ast.IsNot}
+            if name in cmp and len(args) == 2:
+                return interp.compare(cmp[name](), args[0], args[1], node)
+            if name == 'contains' and len(args) == 2:
+                return interp.compare(_ast.In(), args[1], args[0], node)
+            if name in ('not_', 'truth') and len(args) == 1:
+                t_ = interp.truth(args[0], node)
+                return (not t_) if name == 'not_' else t_
+            if name == 'getitem' and len(args) == 2:
+                return interp.subscript(args[0], args[1], node)
+            if name == 'neg' and len(args) == 1:
+                return interp.binop('mul', lambda p_, q_: p_ * q_, args[0], -1, node) if isinstance(args[0], SVar) else -args[0]
+            if name == 'abs' and len(args) == 1:
+                return self._builtin(interp, 'abs', args, {}, node)
+        if mod == 'operator' and name.startswith('i') and name[1:] in _OPERATOR_BINARY and len(args) == 2 and not kwargs:
+            # operator.imul(a, b) is a *= b: a variable is updated in place and returned
+            opname, pyop = _OPERATOR_BINARY[name[1:]]
+            if isinstance(args[0], SVar):
+                return self.binop(interp, opname, args[0], args[1], node, inplace=True)
+            if isinstance(args[0], list) and name == 'iadd':
+                args[0].extend(interp.iterate(args[1], node))
+                interp.note_store(args[0])
+                return args[0]
+            return interp.binop(opname, pyop, args[0], args[1], node)
         if mod == 'operator' and name in _OPERATOR_BINARY and len(args) == 2 and not kwargs:
             opname, pyop = _OPERATOR_BINARY[name]
             return interp.binop(opname, pyop, args[0], args[1], node)
@@ -933,6 +994,20 @@ class Model:
         if path == 'itertools.product' and not kwargs and not any(isinstance(a, Opaque | SVar) for a in args):
             import itertools
             return GenResult(itertools.product(*[interp.iterate(a, node) for a in args]))
+        if path == 'itertools.pairwise' and len(args) == 1 and not isinstance(args[0], Opaque | SVar):
+            seq = interp.iterate(args[0], node)
+            return GenResult(zip(seq[:-1], seq[1:], strict=True))
+        if path == 'itertools.repeat' and len(args) == 2 and isinstance(args[1], int):
+            return GenResult([args[0]] * args[1])
+        if path == 'itertools.starmap' and len(args) == 2 and not isinstance(args[1], Opaque | SVar):
+            return GenResult(interp.call(args[0], list(interp.iterate(a_, node)), {}, node) for a_ in interp.iterate(args[1], node))
+        if path == 'itertools.filterfalse' and len(args) == 2 and not isinstance(args[1], Opaque | SVar):
+            pred = args[0]
+            return GenResult(x for x in interp.iterate(args[1], node)
+                             if not interp.truth(interp.call(pred, [x], {}, node) if pred is not None else x, node))
+        if path == 'collections.deque' and args and not isinstance(args[0], Opaque | SVar):
+            import collections
+            return collections.deque(interp.iterate(args[0], node), **({'maxlen': kwargs['maxlen']} if 'maxlen' in kwargs else ({'maxlen': args[1]} if len(args) > 1 else {})))
         if path == 'itertools.islice' and len(args) >= 2 and all(isinstance(a, int) or a is None for a in args[1:]):
             import itertools
             if isinstance(args[0], GenResult):
@@ -1016,6 +1091,9 @@ class Model:
             r = self.new(interp, t if unit is not None else None, unit, dtype or py_dtype(val), why='unit unknown')
             r.members['variance'] = var
             r.members['value'] = val
+            r.members.setdefault('dims', [])
+            if var is None:
+                r.members['no_variances'] = True
             r.mag = MD.const_mag(val)
             return r
         if isinstance(val, str):
@@ -1393,6 +1471,8 @@ class Model:
     def _builtin(self, interp, name, args, kwargs, node):
         if name == 'id' and len(args) == 1:
             return interp.object_id(args[0])
+        if name in ('float', 'int') and len(args) == 1 and isinstance(args[0], ExactImage):
+            return ExactImage(name, args[0])  # the number itself: still an exact image of where it came from
         if name == 'abs' and args and isinstance(args[0], SVar):
             return self._elementwise(interp, 'abs', args, kwargs, node)
         if name == 'isinstance':
@@ -1580,6 +1660,18 @@ class Model:
             if all(isinstance(a, int) for a in args):
                 return range(*args)
             return Opaque('range(⊤)')
+        if name == 'iter' and len(args) == 2:
+            # iter(callable, sentinel): calls on demand, one call per element asked for
+            from .interp import LazyGen
+            fn_, sentinel = args
+
+            def calls():
+                while True:
+                    v_ = interp.call(fn_, [], {}, node)
+                    if v_ is sentinel or (not isinstance(v_, SVar | Opaque | SObj) and not isinstance(sentinel, SVar | Opaque | SObj) and v_ == sentinel):
+                        return
+                    yield v_
+            return LazyGen(calls())
         if name == 'iter' and len(args) == 1 and not isinstance(args[0], Opaque | SVar):
             if isinstance(args[0], GenResult):
                 return args[0]  # an iterator is its own iterator
@@ -1629,6 +1721,13 @@ class Model:
                 return None
             if isinstance(t, _TypeUnion):
                 return one(tuple(t.members))
+            if isinstance(x, ExcValue):
+                # an exception object (what `except ... as err` binds, what __exit__ receives)
+                tname = t.path.split('.')[-1] if isinstance(t, ExtRef) else (t.ci.name if isinstance(t, ClassRef) else None)
+                if tname is not None:
+                    return interp.exc_matches(x.exc_type, [tname])
+            if x is None and isinstance(t, ExtRef | ClassRef):
+                return t.path == 'types.NoneType' if isinstance(t, ExtRef) else False
             if isinstance(t, ExtRef):
                 p = t.path
                 if p.startswith('builtins.'):
@@ -1744,6 +1843,10 @@ class _Partial:
 
 _ABCS = ('Mapping', 'MutableMapping', 'Sequence', 'MutableSequence', 'Iterable', 'Iterator', 'Generator', 'Sized', 'Container', 'Collection',
          'Hashable', 'Set', 'MutableSet', 'Callable')
+
+
+def items_of_none(x) -> bool:
+    return x.members.get('items') is None and x.members.get('rows') is None
 
 
 def _has_more(reader) -> bool:
